@@ -130,6 +130,13 @@ func c14Case(env *Env, tape *sim.Tape) *CaseOut {
 			out.stat("probe_external_command_large_output", 1)
 		}
 		di = len(env.Corpus) + cmdRaw/1024
+		if cmdRaw/1024 == 0 && truncRaw%3 == 0 {
+			// the well-behaved filter: reports a failed write or a short input by its exit status
+			doc.MT = MTCmdStream
+			doc.Data = append([]byte(fmt.Sprintf("%d\n", len(doc.Data))), doc.Data...)
+			di = len(env.Corpus) + 4
+			out.stat("probe_external_command_exiting_nonzero_on_io_failure", 1)
+		}
 		embed, truncOn = 0, false
 		if entry != EMatch {
 			entry = EPlain
